@@ -85,3 +85,29 @@ Proof.
     subst k. apply (K4 0 12). unfold word_across. split; [lia|]. split; [vm_compute; auto|]. right. lia.
 Qed.
 Print Assumptions C16_no_break_inside_word_refuted.
+
+(* ---- the generic regex matcher on the regenerated patterns computes what the engines do on the pinned examples ---- *)
+From SudachiVerif Require Import Model.SentenceRegex.
+From SudachiVerif Require Generated.SentenceRegexFacts.
+Module RXW := Generated.SentenceRegexFacts.
+
+(* SPACES on "あ い う" (get_eos_with_limit: -8 bytes = 4 characters) and on "あい\n\n う" *)
+Example ex_re_spaces : re_find RXW.SPACES_RE [12354; 32; 12356; 32; 12358]%N = Some (0, 4).
+Proof. vm_compute. reflexivity. Qed.
+Example ex_re_spaces_lf : re_find RXW.SPACES_RE [10; 12354; 12356; 10; 10; 32; 12358]%N = Some (1, 6).
+Proof. vm_compute. reflexivity. Qed.
+(* SENTENCE_BREAKER: "1.." matches only the second dot (look-behind), "・・・。!" is one match, "<br><BR><br>" too, "<br>" is none *)
+Example ex_re_breaker_dots : re_find_iter_ends RXW.SENTENCE_BREAKER_RE 0 None 0 [49; 46; 46]%N = [3].
+Proof. vm_compute. reflexivity. Qed.
+Example ex_re_breaker_cdots : re_find_iter_ends RXW.SENTENCE_BREAKER_RE 0 None 0 [12354; 12539; 12539; 12539; 12290; 33; 12356; 12539; 12539]%N = [6].
+Proof. vm_compute. reflexivity. Qed.
+Example ex_re_breaker_br :
+  re_find_iter_ends RXW.SENTENCE_BREAKER_RE 0 None 0 [60; 98; 114; 62; 60; 66; 82; 62; 60; 98; 114; 62; 120; 60; 98; 114; 62]%N = [12].
+Proof. vm_compute. reflexivity. Qed.
+(* QUOTE_MARKER at "?です", PROHIBITED_BOS on "）、。あ", EOS_ITEMIZE_HEADER on "あ1." *)
+Example ex_re_quote : re_match_at RXW.QUOTE_MARKER_RE None [63; 12391; 12377]%N = Some 3.
+Proof. vm_compute. reflexivity. Qed.
+Example ex_re_prohibited : re_find RXW.PROHIBITED_BOS_RE [65289; 12289; 12290; 12354]%N = Some (0, 3).
+Proof. vm_compute. reflexivity. Qed.
+Example ex_re_eos_itemize : re_is_match RXW.EOS_ITEMIZE_HEADER_RE [12354; 49; 46]%N = true.
+Proof. vm_compute. reflexivity. Qed.
